@@ -524,6 +524,7 @@ pub fn synthetic_project(seed: u64) -> Project {
                         8 if use_enum => "Flags.Read".to_string(),
                         9 if use_enum => "Flags".to_string(),
                         10 => "\"it's\" | \"say \\\"hi\\\"\" | \"back\\\\slash\"".to_string(),
+                        13 => ["`${\"\"}`", "`prefix-${\"\"}`", "`line one\nline two ${number}`", "`${string}\\r\\n`", "`abc`", "`${number}`"][rng.below(6)].to_string(),
                         11 => "\"line\\nbreak\" | \"tab\\t\" | \"\\u2028sep\" | \"\u{1F600}\" | \"</script>\"".to_string(),
                         12 => "-0 | 1e21 | 0.1 | -1.5e-7 | 123456789012345680000".to_string(),
                         _ => prim[rng.below(prim.len() - 1)].to_string(),
@@ -589,6 +590,11 @@ pub fn synthetic_project(seed: u64) -> Project {
         if n_files >= 2 && rng.chance(1, 6) {
             extra_decls.push(format!("export type ViaImport = typeof import(\"./m1\").{}.inner;", ["CONFIG", "Missing", "T0"][rng.below(3)]));
             extra_keys.push("ViaImport: ViaImport".into());
+        }
+        if rng.chance(1, 5) {
+            extra_decls.push("export const TPL = `abc` as const;".into());
+            extra_decls.push("export type Tpl = typeof TPL;".into());
+            extra_keys.push("Tpl: Tpl".into());
         }
         extra_decls.push("export type Config = typeof CONFIG;".into());
         extra_decls.push("export type ConfigKey = keyof typeof CONFIG;".into());
@@ -684,7 +690,12 @@ pub fn synthetic_project(seed: u64) -> Project {
                 3 => format!("Pick<{}, \"{}\">", names[a], fld),
                 4 => format!("Omit<{}, \"{}\">", names[a], fld),
                 5 => format!("Required<{}>", names[a]),
-                6 => format!("Exclude<{} | string, string>", names[a]),
+                6 => match rng.below(4) {
+                    0 => "Exclude<unknown, undefined>".to_string(),
+                    1 => "Exclude<unknown, Uint8Array>".to_string(),
+                    2 => format!("Exclude<any, {}>", names[a]),
+                    _ => format!("Exclude<{} | string, string>", names[a]),
+                },
                 _ => format!("NonNullable<{}[\"{}\"]> extends string ? \"s\" : \"o\"", names[a], fld),
             };
             queries.push((format!("Q{}", q), body));
